@@ -185,6 +185,24 @@ func applyEvil(r *Run, o *stubOrigin, kind string) {
 					}
 				}
 			}
+		case "unsupported-rendition":
+			// an audio rendition (a playlist of its own) whose only track has a codec the client does not support
+			if si > 0 && st.container == "fmp4" && len(st.tracks) > 0 {
+				c, name := evilFMP4Codec(T)
+				for c.IsVideo() {
+					c, name = evilFMP4Codec(T)
+				}
+				t := st.tracks[0]
+				t.codec, t.kind, t.supported = c, name, false
+				st.tracks = st.tracks[:1]
+			}
+		case "gap-tags":
+			// EXT-X-GAP on some segments (the last one included): the resource is still served
+			for i, sg := range st.segs {
+				if T.Chance(1, 4) || i == len(st.segs)-1 {
+					sg.gapTag = true
+				}
+			}
 		case "rendition-two-tracks":
 			if si > 0 && st.container == "fmp4" && len(st.tracks) == 1 {
 				cp := *st.tracks[0]
@@ -456,7 +474,7 @@ func scC13(spot bool) Scenario {
 		evil := "none"
 		if !spot || T.Chance(1, 3) {
 			evil = Pick(T, "unsupported-codec-extra", "unsupported-codec-extra", "unsupported-codec-only", "unsupported-codec-first",
-				"track-id-permutation", "no-leading-data", "many-tracks", "huge-times", "mixed-containers", "rendition-two-tracks", "audio-group-missing", "empty-fragments", "empty-fragments", "init-timescale", "empty-samples")
+				"track-id-permutation", "no-leading-data", "many-tracks", "huge-times", "mixed-containers", "rendition-two-tracks", "audio-group-missing", "empty-fragments", "empty-fragments", "init-timescale", "empty-samples", "unsupported-rendition", "gap-tags")
 			applyEvil(r, o, evil)
 		}
 		// byte-level damage at chosen request positions
